@@ -41,6 +41,7 @@ THEOREMS = [
     "HedVerif.C20.duration_context_interval",
     "HedVerif.C20.delay_shifts_start",
     "HedVerif.C20.context_case_insensitive",
+    "HedVerif.C20.identical_processes_both_listed",
 ]
 BUDGET = {"quick": 900, "thorough": 3600}
 
@@ -245,6 +246,10 @@ def valid_history(rows):
     fr = frame_rows(rows)
     if any(i[0] in ("onsetdur", "durbare") for _, its in fr for i, _ in its):
         return False
+    for t in {t for t, _ in fr}:            # TAG_EXPRESSION_REPEATED: the same group text twice in one time point
+        texts = [cell_text(i, d) for tt, its in fr if tt == t for i, d in its]
+        if len(set(texts)) != len(texts):
+            return False
     open_ = set()
     for t in sorted({t for t, _ in fr}):
         ms = [(i[0], i[1].casefold()) for tt, its in fr if tt == t for i, _ in its
@@ -434,6 +439,12 @@ def boundary_stats(ctx, rows):
     """how often the generated histories hit the boundary situations named in the property"""
     fr = frame_rows(rows)
     T = sorted({t for t, _ in fr})
+    T_, procs_, _, _ = spec_processes(rows)
+    for t in T_:
+        strs = [p[2] for p in procs_ if p[0] <= t < p[1]]
+        if len(set(strs)) != len(strs):
+            ctx.count("identical-contents-ongoing-together")
+            break
     marks = {}
     for t, its in fr:
         for it, _ in its:
@@ -624,7 +635,28 @@ def gen_rows(rng, nrows, spells, uid0=1):
         its = [item(k) for _ in range(rng.choice([0, 1, 1, 1, 2, 2, 3]))]
         dl = [[span(k), item(k, True)] for _ in range(rng.choice([0, 0, 0, 1, 1, 2]))]
         rows.append({"time": times[k], "items": its, "delayed": dl})
-    return repair(rows)
+    return add_twins(rng, repair(rows), spells)
+
+
+def add_twins(rng, rows, spells):
+    """a second Duration (or Delay+Duration) group with textually IDENTICAL contents — a distinct process that prints
+    the same — placed so that the two usually overlap: in the same row / an equal-onset row (then with another
+    length, identical group text twice in one time point is TAG_EXPRESSION_REPEATED) or in one of the next rows"""
+    durs = [(k, None, it) for k, r in enumerate(rows) for it in r["items"] if it[0] == "duration"] + \
+           [(k, d, it) for k, r in enumerate(rows) for d, it in r["delayed"] if it[0] == "duration"]
+    if not durs or rng.random() > 0.35:
+        return rows
+    k, d, it = rng.choice(durs)
+    if rng.random() < 0.6:
+        it[1], it[3] = 40, rng.choice(spells.get(40, [0]))          # long enough to be still going on
+    k2 = min(len(rows) - 1, k + rng.choice([0, 0, 1, 1, 2]))
+    n2 = rng.choice([x for x in (8, 16, 24, 40, 64) if rows[k2]["time"] != rows[k]["time"] or x != it[1]])
+    twin = ["duration", n2, it[2], rng.choice(spells.get(n2, [0])), False]
+    if d is None:
+        rows[k2]["items"].append(twin)
+    else:
+        rows[k2]["delayed"].append([d, twin])
+    return rows
 
 
 def exact_spells(schema):
@@ -649,6 +681,7 @@ CELLS = [
     [(8, ("on", "A"))], [(8, ("off", "a"))], [(8, ("dur", 8))],
     [(None, ("on", "a")), (None, ("dur", 8))], [(None, ("on", "B")), (None, ("off", "A"))],
     [(None, ("in", "A"))],
+    [(None, ("twin",))],
 ]
 SMALL = [0, 1, 2, 3, 5, 6, 7, 9, 13]
 
@@ -674,6 +707,8 @@ def exhaustive(nmax_full, nmax_small):
                             it = ["inset", spec[1], uid]
                         elif spec[0] == "dur":
                             it = ["duration", spec[1], uid, (uid + k) % 2, False]
+                        elif spec[0] == "twin":        # identical contents in every row, lengths 2 s, 3 s, ...
+                            it = ["duration", 16 + 8 * k, 77, 0, False]
                         else:
                             it = ["plain", uid, (uid + k) % 4 if d is None else 0]
                         if d is None:
@@ -686,6 +721,15 @@ def exhaustive(nmax_full, nmax_small):
 
 
 CORPUS = [
+    # two DISTINCT processes whose contents print the same: overlapping in time (different rows), starting at the same
+    # time point (same row / equal-onset rows, different lengths), and Delay+Duration twins
+    [{"time": 0, "items": [["duration", 24, 7, 0]], "delayed": []}, {"time": 8, "items": [["duration", 24, 7, 1]], "delayed": []},
+     {"time": 16, "items": [["plain", 2, 0]], "delayed": []}, {"time": 40, "items": [], "delayed": []}],
+    [{"time": 0, "items": [["duration", 24, 7, 0], ["duration", 16, 7, 0]], "delayed": []},
+     {"time": 0, "items": [["duration", 40, 7, 0]], "delayed": []}, {"time": 8, "items": [], "delayed": []},
+     {"time": 16, "items": [], "delayed": []}, {"time": 24, "items": [], "delayed": []}],
+    [{"time": 0, "items": [], "delayed": [[8, ["duration", 24, 7, 0]]]}, {"time": 4, "items": [], "delayed": [[8, ["duration", 24, 7, 2]]]},
+     {"time": 16, "items": [], "delayed": []}, {"time": 20, "items": [["plain", 3, 1]], "delayed": []}],
     # the probe of DESIGN section 8 #15: rows 0 and 1 share onset 1.0
     [{"time": 8, "items": [["onset", "A", 1, False]], "delayed": []}, {"time": 8, "items": [["plain", 2, 0]], "delayed": []},
      {"time": 16, "items": [["offset", "a"]], "delayed": []}],
@@ -746,7 +790,7 @@ def run(ctx):
     files += extra
     ctx.extra["relabelled_files"] = {"all_permutations": len(extra), "one_labelling": k3}
     _run_files(ctx, files, schema, dd, validate_every=25)
-    nrand = 2500 if ctx.quick() else 15000
+    nrand = 2000 if ctx.quick() else 15000
     rnd = []
     for k in range(nrand):
         rows = gen_rows(ctx.rng, ctx.rng.randint(1, 12), spells)
